@@ -184,3 +184,87 @@ def pure_vector(vc):
     v = out.value
     vc.ensure('a column vector with one entry per state', isinstance(v, SMatrix) and z3.And(to_num(v.rows) == nS, to_num(v.cols) == 1))
     vc.ensure('pure[i] = sum of explicit terms for state i', z3.ForAll([i], z3.Implies(z3.And(i >= 0, i < nS), col(v, i) == PSQ(nQ, i))))
+
+
+def _replay_reactant(clause, m):
+    """random event lists (several transitions per event, the same state in more than one of them) against the definition"""
+    import numpy as np
+    from contracts import native
+    pm = native.imp('pygom.model')
+    rng = np.random.default_rng(7)
+    bad, inp = [], None
+    try:
+        with native.quiet():
+            for _ in range(60):
+                nS = int(rng.integers(1, 5))
+                states = ['s%d' % i for i in range(nS)]
+                events, want = [], []
+                for e in range(int(rng.integers(1, 4))):
+                    trs, col = [], [0] * nS
+                    for k in range(int(rng.integers(1, 4))):
+                        typ = ['B', 'D', 'T'][int(rng.integers(0, 3))]
+                        o, d = int(rng.integers(0, nS)), int(rng.integers(0, nS))
+                        if typ == 'B':
+                            trs.append(pm.Transition(destination=states[d], transition_type='B')); col[d] = 1
+                        elif typ == 'D':
+                            trs.append(pm.Transition(origin=states[o], transition_type='D')); col[o] = 1
+                        else:
+                            trs.append(pm.Transition(origin=states[o], destination=states[d], transition_type='T')); col[o] = 1; col[d] = 1
+                    events.append(pm.Event(rate='r*%s' % states[0], transition_list=trs)); want.append(col)
+                ode = pm.SimulateOde(states, ['r'], event=events)
+                got = np.asarray(ode.get_ReactantMatrix())
+                exp = np.array(want).T
+                if got.shape != exp.shape or not (got == exp).all():
+                    inp = "states %s, events %s" % (states, [[(str(t.transition_type), t.origin, t.destination) for t in ev.transition_list] for ev in events])
+                    bad.append("reactant matrix %s, definition gives %s" % (got.tolist(), exp.tolist()))
+                    break
+    except Exception as e:
+        bad.append("raises %s: %s" % (type(e).__name__, e))
+    return {'reproduced': bool(bad), 'observed': bad, 'input': inp or '60 random event lists'}
+
+
+@contract('C01/get_ReactantMatrix', ['C01', 'C04'], BAS + 'get_ReactantMatrix', max_paths=4000, replay=_replay_reactant)
+def reactant_matrix(vc):
+    """lambda[i, e] is 1 when state i takes part in a transition of event e (origin of a death or transfer, destination of a birth or
+    transfer) and 0 otherwise -- in particular every entry is 0 or 1, which is what the tau-leap safety kernel is given (C04)"""
+    mv = ModelView(vc)
+    nS, nE = mv.nS, mv.nE
+    F = 'pygom.model.base_ode_model:BaseOdeModel.get_ReactantMatrix'
+    B_ = z3.BoolSort()
+    POR = z3.Function('Involved', I, I, I, B_)          # POR(e, k, i): state i takes part in one of the first k transitions of event e
+    e, k, i = z3.Int('po_e'), z3.Int('po_k'), z3.Int('po_i')
+
+    def involved(e_, k_, i_):
+        return z3.Or(z3.And(z3.Or(ty(e_, k_) == 2, ty(e_, k_) == 0), ix(dst(e_, k_)) == i_),
+                     z3.And(z3.Or(ty(e_, k_) == 2, ty(e_, k_) == 1), ix(org(e_, k_)) == i_))
+    vc.assume(z3.ForAll([e, i], z3.Not(POR(e, 0, i)), patterns=[POR(e, 0, i)]))
+    vc.assume(z3.ForAll([e, k, i], z3.Implies(k >= 0, POR(e, k + 1, i) == z3.Or(POR(e, k, i), involved(e, k, i))), patterns=[POR(e, k + 1, i)]))
+    st = {}
+    i2, e2 = z3.Int('inv_i'), z3.Int('inv_e')
+    cell = lambda i_, e_: mv.obj.fields['_lambdaMat'].get((i_, e_))
+
+    def inplace(it, view):
+        mv.obj.fields['_lambdaMat'].havoc_inplace(it, 'lambdaMat')
+
+    def shape():
+        m = mv.obj.fields['_lambdaMat']
+        return z3.And(to_num(m.shape[0]) == nS, to_num(m.shape[1]) == nE)
+    vc.loop(F, 0, lambda view, ee: [('finished columns hold the incidence of their event; later columns are still zero',
+                                     z3.And(shape(), z3.ForAll([i2, e2], z3.Implies(z3.And(i2 >= 0, i2 < nS, e2 >= 0, e2 < nE),
+                                                                                cell(i2, e2) == z3.If(z3.And(e2 < ee, POR(e2, K(e2), i2)), 1, 0)))))],
+            inplace=(inplace,), ghost=lambda it, view, ee: st.__setitem__('e', ee))
+    vc.loop(F, 1, lambda view, kk: [('the current column holds the incidence of the first k transitions',
+                                     z3.And(shape(), z3.ForAll([i2, e2], z3.Implies(z3.And(i2 >= 0, i2 < nS, e2 >= 0, e2 < nE),
+                                                                                cell(i2, e2) == z3.If(z3.Or(z3.And(e2 < st['e'], POR(e2, K(e2), i2)),
+                                                                                                            z3.And(e2 == st['e'], POR(e2, kk, i2))), 1, 0)))))],
+            inplace=(inplace,))
+    out = vc.call(vc.func(F), mv.obj)
+    vc.ensure('returns normally for every well-formed model', out.returned)
+    if not out.returned:
+        return
+    m = out.value
+    from pyvc.lib import SArr
+    vc.ensure('shape (number of states, number of events)', isinstance(m, SArr) and z3.And(to_num(m.shape[0]) == nS, to_num(m.shape[1]) == nE))
+    vc.ensure('entry (i, e) is 1 exactly when state i takes part in some transition of event e, else 0 (so every entry is 0 or 1)',
+              z3.ForAll([i2, e2], z3.Implies(z3.And(i2 >= 0, i2 < nS, e2 >= 0, e2 < nE), m.get((i2, e2)) == z3.If(POR(e2, K(e2), i2), 1, 0))))
+    vc.canary('canary: reachable', z3.BoolVal(False))
